@@ -148,17 +148,11 @@ package simulation
 //@   ensures tarWritten >= old(tarWritten)
 //@   assigns tarWritten, tarName, tarMode, tarSize, tarDataRef
 
-// ENGINE GAP (sortedness not stated): Go's string `<` is encoded as the uninterpreted relation `str_` (exec.go), but the
-// spec-level `<` on strings compares the tokens as integers and a `ufunc` gets a `spec_<pkg>.` prefix, so no contract can
-// name the order the code sorts by. With a builtin (say strlt(a, b)) the two missing clauses are:
-//   ensures result == nil ==> (forall k in 1..len(entries) :: !strlt(entries[pi[k]].name, entries[pi[k - 1]].name))
-//   loop 0: invariant forall i in 0..len(sorted) :: forall j in 0..len(sorted) :: i < j ==> !strlt(sorted[j].name, sorted[i].name)
-// (pairwise-different names are proved below, so "never decreasing" would give "strictly increasing").
 //@ pred permOf(pi, n) = (forall j in 0..n :: 0 <= pi[j] && pi[j] < n) && (forall j in 0..n :: forall k in 0..n :: j != k ==> pi[j] != pi[k])
 
 // writeArchiveStream: on success the log holds build_id first, then the entries' payloads in the order pi (a permutation
-// of the input: the one sort.Slice produced) in which the names are pairwise different; two entries with the same name
-// make it fail. (That pi sorts by name is sort.Slice's trusted model; see ENGINE GAP above for why it is not restated.)
+// of the input) in which the names never decrease (strlt = Go's string <) and are pairwise different: strictly
+// increasing, whatever the input order was; two entries with the same name make it fail.
 //@ fn writeArchiveStream
 //@   property C07
 //@   witness pi map = Slice_pi
@@ -170,6 +164,10 @@ package simulation
 //@   ensures result == nil ==> permOf(pi, len(entries))
 //@   label C07.write.payload.order
 //@   ensures result == nil ==> (forall k in 0..len(entries) :: tarDataRef[old(tarWritten) + 1 + k] == ref(entries[pi[k]].data) && tarMode[old(tarWritten) + 1 + k] == 384)
+//@   label C07.write.sorted
+//@   ensures result == nil ==> (forall k in 1..len(entries) :: !strlt(entries[pi[k]].name, entries[pi[k - 1]].name))
+//@   label C07.write.strictly.increasing
+//@   ensures result == nil ==> (forall k in 1..len(entries) :: strlt(entries[pi[k - 1]].name, entries[pi[k]].name))
 //@   label C07.write.duplicates.rejected
 //@   ensures result == nil ==> (forall a in 0..len(entries) :: forall b in 0..len(entries) :: a != b ==> entries[pi[a]].name != entries[pi[b]].name)
 //@   label C07.write.log.kept
@@ -179,6 +177,7 @@ package simulation
 //@   loop 0: backedge at = upd(at, entry.name, rangeindex)
 //@   loop 0: invariant -1 <= rangeindex && rangeindex < len(sorted) && len(sorted) == len(entries) && (len(sorted) == 0 || fresh(sorted)) && seen != nil && fresh(seen) && tw != nil && gz != nil
 //@   loop 0: invariant permOf(Slice_pi, len(entries)) && (forall k in 0..len(sorted) :: sorted[k].name == entries[Slice_pi[k]].name && ref(sorted[k].data) == ref(entries[Slice_pi[k]].data))
+//@   loop 0: invariant forall i in 0..len(sorted) :: forall j in 0..len(sorted) :: i < j ==> !strlt(sorted[j].name, sorted[i].name)
 //@   loop 0: invariant tarWritten == old(tarWritten) + 2 + rangeindex && tarName[old(tarWritten)] == buildIDPath && logKeeps(old(tarWritten))
 //@   loop 0: invariant forall k in 0..rangeindex + 1 :: tarDataRef[old(tarWritten) + 1 + k] == ref(sorted[k].data) && tarMode[old(tarWritten) + 1 + k] == 384
 //@   loop 0: invariant forall k in 0..rangeindex + 1 :: sorted[k].name in seen
